@@ -18,6 +18,13 @@ Tie and oracle, on the REAL code:
     insertion, what `_hint_repr_to_hint` holds for the hint's repr, `_HINT_TO_WRAPPER` hit, id-table hit, stale hit);
     the Lean model (`Driver/C14.lean`, in the repair state extracted from the code) must predict the same (exactly
     for the checker / repr tables; "every entry the model has exists" for the wrapper / id tables).
+  * context-relative hints: methods of two or three different @beartype-decorated classes annotated by EQUAL hints that
+    mention `typing.Self` (before a context-free sibling: tuple[Self, int], dict[Self, str], tuple[list[Self], list[int]];
+    controls with Self last), called in both orders with instances of either class; equal relative forward references
+    (tuple['Node', int], list['Node'], …) asked through is_bearable / die_if_unbearable / a decorated function from two
+    or three caller scopes that each define their OWN class `Node` (a function's local class, a module's global class),
+    in both orders. The table lock-step covers them: the model (askBearC, treeCacheable over the visiting order of the
+    hint's tree) predicts that no checker / expression for such a hint is ever stored.
 Histories are adversarial by construction (look-alikes under ==/hash, same-named class redefinition with and
 without @beartype, unhashable hints churned to force id() reuse, clear_caches() followed by new wrappers, forward
 references failing now and defined later, configurations alternated); non-triviality is MEASURED in the history
@@ -40,7 +47,8 @@ from ..extract import memo as xmemo
 MODULE = 'BearVerif.Props.C14'
 PROP_FILE = LEAN / 'BearVerif/Props/C14.lean'
 
-WORLD_OPS = ('defclass', 'deffunc')
+WORLD_OPS = ('defclass', 'deffunc', 'defself', 'defscope')
+DEF_OPS = ('defclass', 'defself', 'defscope')          # operations that create the classes an expression can name
 WORKERS = 16
 
 # ------------------------------------------------------------------------------------------------------------
@@ -112,7 +120,7 @@ def run_items(items: list[dict]) -> list[dict]:
     return _POOL.run(items)
 
 
-CLASS_NAMES = ('Foo', 'Bar', 'Later')
+CLASS_NAMES = ('Foo', 'Bar', 'Later', 'Alpha', 'Beta', 'Gamma', 'ScA', 'ScB', 'ScC')
 
 
 def names_in(e) -> set:
@@ -139,7 +147,7 @@ def fresh_ops(ops: list, i: int) -> list:
         for op in ops[:i]:
             if op[0] == 'deffunc' and op[1] == probe[1]:
                 need |= names_in(op[2])
-    world = [op for op in ops[:i] if (op[0] == 'defclass' and op[1] in need) or (op[0] == 'deffunc' and op[1] in funcs)]
+    world = [op for op in ops[:i] if (op[0] in DEF_OPS and op[1] in need) or (op[0] == 'deffunc' and op[1] in funcs)]
     return world + [probe]
 
 
@@ -195,6 +203,42 @@ def cls_objs(name: str, g: int) -> list:
     return [i, ['list', i], ['dict', ['"k"', i]], ['tuple', i, '1'], ['clsobj', name, g], ['set', i], ['list', ['list', i]], ['tuple', i]]
 
 
+# hints whose meaning depends on the CONTEXT of the query. `Self` = the class being decorated; 'Node' = whatever the
+# caller's scope calls Node. NONLAST: the context-relative hint is followed by a context-free sibling in the tree.
+SELF_NONLAST = ['tuple[Self, int]', 'dict[Self, str]', 'tuple[list[Self], list[int]]']
+SELF_LAST = ['tuple[int, Self]', 'list[Self]', 'Optional[Self]']
+SELF_FREE = ['tuple[int, str]']                       # control: no Self at all (cached and shared, rightly)
+SELF_CLASSES = ('Alpha', 'Beta', 'Gamma')
+REF = ['ref', 'Node']
+REF_NONLAST = [['tuple', REF, 'int'], ['dict', REF, 'str'], ['tuple', ['list', REF], ['list', 'int']]]
+REF_LAST = [['list', REF], ['tuple', 'int', REF], ['opt', REF], ['dict', 'str', REF]]
+SCOPES = ('ScA', 'ScB', 'ScC')
+
+
+def self_obj(hintsrc: str, i) -> list:
+    """objects probing a Self-hint with the instance expression `i` in the place of Self"""
+    return {'tuple[Self, int]': [['tuple', i, '1'], ['tuple', i, '"a"']],
+            'dict[Self, str]': [['dict', [i, '"a"']]],
+            'tuple[list[Self], list[int]]': [['tuple', ['list', i], ['list', '1']]],
+            'tuple[int, Self]': [['tuple', '1', i]],
+            'list[Self]': [['list', i]],
+            'Optional[Self]': [i, 'None'],
+            'tuple[int, str]': ['(1, "a")', '(1, 2)']}[hintsrc]
+
+
+def ref_obj(h, i) -> list:
+    """objects probing a hint over 'Node' with the instance expression `i` in the place of a Node"""
+    k = json.dumps(h)
+    table = {json.dumps(['tuple', REF, 'int']): [['tuple', i, '1']],
+             json.dumps(['dict', REF, 'str']): [['dict', [i, '"a"']]],
+             json.dumps(['tuple', ['list', REF], ['list', 'int']]): [['tuple', ['list', i], ['list', '1']]],
+             json.dumps(['list', REF]): [['list', i]],
+             json.dumps(['tuple', 'int', REF]): [['tuple', '1', i]],
+             json.dumps(['opt', REF]): [i, 'None'],
+             json.dumps(['dict', 'str', REF]): [['dict', ['"k"', i]]]}
+    return table.get(k, ['1', '[1]'])
+
+
 class Builder:
     """Builds one history, tracking the world so that every expression refers to something that exists."""
 
@@ -204,6 +248,8 @@ class Builder:
         self.gens: dict[str, int] = {}
         self.funcs: dict[str, str] = {}       # fname -> class name its hint mentions
         self.nf = 0
+        self.selfcls: dict[str, str] = {}     # class defined by a defself -> its hint
+        self.scopes: list = []                # caller scopes defined so far
 
     def defclass(self, name, bt=None):
         if bt is None:
@@ -332,6 +378,67 @@ class Builder:
                 if r.random() < 0.5:
                     self.bear(['listref', f'c14mod.{name}'], ['list', ['inst', name, -1]], api='is_bearable')
 
+    def defself(self, name, hintsrc, conf=0):
+        self.ops.append(['defself', name, hintsrc, conf])
+        self.gens[name] = self.gens.get(name, 0) + 1
+        self.selfcls[name] = hintsrc
+
+    def mcalls(self, names, k):
+        """k calls of methods of the classes `names`, each with an instance of ANY of the classes in Self's place"""
+        r = self.rng
+        for _ in range(k):
+            c = r.choice(names)
+            i = ['inst', r.choice(names if r.random() < 0.8 else list(self.selfcls)), -1]
+            self.ops.append(['mcall', c, r.choice(['m', 'm', 'r']), r.choice(self_obj(self.selfcls[c], i))])
+
+    def frag_self(self):
+        """two or three different decorated classes whose methods are annotated by EQUAL hints mentioning Self; the
+        classes are decorated (= their checks compiled) and called in a random order, calls also between decorations"""
+        r = self.rng
+        free = [n for n in SELF_CLASSES if n not in self.gens]
+        if len(free) >= 2:
+            hintsrc = r.choice(SELF_NONLAST * 3 + SELF_LAST * 2 + SELF_FREE)
+            conf = r.choice([0, 0, 0, 2])
+            names = r.sample(free, k=min(len(free), r.choice([2, 2, 3])))
+            done = []
+            for n in names:
+                self.defself(n, hintsrc, conf)
+                done.append(n)
+                if r.random() < 0.4:
+                    self.mcalls(done, r.randint(1, 2))
+        if self.selfcls:
+            self.mcalls(list(self.selfcls), r.randint(3, 8))
+
+    def defscope(self, name, kind=None):
+        self.ops.append(['defscope', name, kind or self.rng.choice(['func', 'func', 'module'])])
+        self.gens[name] = 1
+        self.scopes.append(name)
+
+    def sbears(self, k, hints, apis=('is_bearable', 'is_bearable', 'die_if_unbearable', 'decor'), confs=(0, 0, 0, 1)):
+        """k queries with hints over 'Node', each asked from inside one of the scopes with an instance of the Node of
+        ANY scope (or no Node at all)"""
+        r = self.rng
+        for _ in range(k):
+            h = r.choice(hints)
+            who = r.choice(self.scopes + ['-'])
+            o = r.choice(ref_obj(h, ['inst', who, -1])) if who != '-' else r.choice(['1', '(1, 1)', '[1]', 'None'])
+            self.ops.append(['sbear', r.choice(self.scopes), r.choice(apis), h, o, r.choice(confs)])
+
+    def frag_scope(self):
+        """equal relative forward references asked from two or three caller scopes that each define their own `Node`"""
+        r = self.rng
+        free = [n for n in SCOPES if n not in self.gens]
+        hints = r.sample(REF_NONLAST, k=r.randint(1, 2)) + r.sample(REF_LAST, k=r.randint(0, 2))
+        if r.random() < 0.3:
+            hints.append(r.choice([['list', 'int'], ['tuple', 'int', 'str']]))      # context-free: shared, rightly
+        for n in (r.sample(free, k=min(len(free), r.choice([2, 2, 3]))) if len(free) >= 2 or not self.scopes else []):
+            self.defscope(n)
+            if r.random() < 0.4:
+                self.sbears(r.randint(1, 2), hints)
+        if r.random() < 0.15:
+            self.ops.append(['clear'])
+        self.sbears(r.randint(3, 9), hints)
+
     def frag_noise(self):
         r = self.rng
         k = r.random()
@@ -358,9 +465,20 @@ def gen_table_history(rng: random.Random) -> list:
     clear_caches()."""
     b = Builder(rng)
     b.defclass('Foo')
+    ctx = rng.random() < 0.6              # also queries asked from caller scopes, and classes whose hints mention Self
+    if ctx:
+        for n in rng.sample(SCOPES, k=2):
+            b.defscope(n)
     for _ in range(rng.randint(6, 16)):
         k = rng.random()
-        if k < 0.55:
+        if ctx and k < 0.3:
+            h = rng.choice(REF_NONLAST + REF_LAST + [['list', 'int'], ['tuple', 'int', 'str'], ['dict', 'str', 'int']])
+            b.sbears(1, [h], apis=('is_bearable', 'die_if_unbearable'), confs=(0, 0, 1))
+        elif ctx and k < 0.36:
+            free = [n for n in SELF_CLASSES if n not in b.gens]
+            if free:
+                b.defself(free[0], rng.choice(SELF_NONLAST + SELF_LAST + SELF_FREE + ['tuple[str, int]']))
+        elif k < 0.55:
             if rng.random() < 0.5:
                 c = ['cls', 'Foo', b.any_gen('Foo')]
                 h = rng.choice([c, ['list', c], ['dict', 'str', c], ['or', c, 'None'], ['set', c], ['List', c]])
@@ -377,7 +495,8 @@ def gen_table_history(rng: random.Random) -> list:
     return b.ops
 
 
-FRAGS = [('redefine', 4), ('churn', 3), ('hint_churn', 2), ('clear_ids', 3), ('lookalike', 3), ('conf', 1), ('fwdref', 3)]
+FRAGS = [('redefine', 4), ('churn', 3), ('hint_churn', 2), ('clear_ids', 3), ('lookalike', 3), ('conf', 1), ('fwdref', 3),
+         ('self', 3), ('scope', 3)]
 
 
 def gen_history(rng: random.Random) -> list:
@@ -398,7 +517,35 @@ def gen_history(rng: random.Random) -> list:
 # oracle, shrinking, classification
 # ------------------------------------------------------------------------------------------------------------
 def is_probe(op) -> bool:
-    return op[0] in ('bear', 'sub', 'thsub', 'theq', 'call', 'deffunc')
+    return op[0] in ('bear', 'sub', 'thsub', 'theq', 'call', 'deffunc', 'defself', 'mcall', 'sbear')
+
+
+def hint_visit(e) -> list:
+    """Per hint of the tree of the hint expression `e`, breadth first from the root (the order in which the code
+    generator sanifies them): is it context-relative (typing.Self, a stringified forward reference)?"""
+    out, queue_ = [], [e]
+    while queue_:
+        x = queue_.pop(0)
+        if isinstance(x, str):
+            out.append(x == 'Self')
+            continue
+        k = x[0]
+        if k in ('ref', 'listref'):
+            out += [True] if k == 'ref' else [False, True]
+            continue
+        out.append(False)
+        if k in ('cls', 'lit'):
+            continue
+        queue_ += list(x[1:2] if k in ('ann', 'annU') else x[1:])
+    return out
+
+
+def selfsrc_expr(src: str):
+    """hint expression of the source text of a Self-hint (the shapes of SELF_NONLAST / SELF_LAST / SELF_FREE)"""
+    return {'tuple[Self, int]': ['tuple', 'Self', 'int'], 'dict[Self, str]': ['dict', 'Self', 'str'],
+            'tuple[list[Self], list[int]]': ['tuple', ['list', 'Self'], ['list', 'int']],
+            'tuple[int, Self]': ['tuple', 'int', 'Self'], 'list[Self]': ['list', 'Self'], 'Optional[Self]': ['opt', 'Self'],
+            'tuple[int, str]': ['tuple', 'int', 'str'], 'tuple[str, int]': ['tuple', 'str', 'int']}[src]
 
 
 def mentions(e, name) -> bool:
@@ -421,6 +568,21 @@ def classify(ops: list, stats: dict) -> str:
         if stats.get('id_stale_hit', 0) or stats.get('id_reuse', 0) or died:
             return 'C14:id-key:address-reuse-after-gc'
         return 'C14:door:' + shape
+    if probe[0] in ('mcall', 'defself'):
+        # a method of one decorated class answered with the check compiled for ANOTHER class annotated by an equal hint
+        name = probe[1]
+        hintsrc = next((op[2] for op in ops if op[0] == 'defself' and op[1] == name), None)
+        others = [op for op in ops[:-1] if op[0] == 'defself' and op[1] != name and op[2] == hintsrc]
+        if others and hintsrc is not None and 'Self' in hintsrc:
+            return 'C14:context-relative:self-hint-of-another-class'
+        return 'C14:' + probe[0] + ':' + shape
+    if probe[0] == 'sbear':
+        scopes = {op[1] for op in ops[:-1] if op[0] == 'sbear' and op[1] != probe[1] and op[3] == probe[3]}
+        if scopes and mentions(probe[3], 'ref'):
+            return 'C14:context-relative:forward-reference-of-another-scope'
+        if mentions(probe[3], 'ref') and any(op[0] == 'sbear' and op[3] == probe[3] for op in ops[:-1]):
+            return 'C14:context-relative:forward-reference-asked-before'
+        return 'C14:sbear:' + shape
     if probe[0] == 'call':
         target = next((op for op in ops if op[0] == 'deffunc' and op[1] == probe[1]), None)
         if target is not None and "'" in target[2] and any(n in target[2] for n in redefined):
@@ -477,6 +639,8 @@ def render(op) -> str:
             return f'Annotated[{h(e[1])}, {e[2]}]'
         if k == 'ref':
             return repr(e[1])
+        if k == 'type':
+            return f'type[{h(e[1])}]' 
         if k == 'listref':
             return f'list[{e[1]!r}]'
         return str(e)
@@ -486,6 +650,8 @@ def render(op) -> str:
             return e
         k = e[0]
         if k == 'inst':
+            if e[1] in SCOPES:
+                return f'{e[1]}.Node()'
             return h(['cls', e[1], e[2]]) + '()'
         if k == 'clsobj':
             return h(['cls', e[1], e[2]])
@@ -518,6 +684,19 @@ def render(op) -> str:
         return f'TypeHint({h(op[1])}) == TypeHint({h(op[2])})'
     if k == 'call':
         return f'{op[1]}({o(op[2])})'
+    if k == 'defself':
+        c = f'(conf=C{op[3]})' if len(op) > 3 and op[3] else ''
+        return f'@beartype{c} class {op[1]}: def m(self, x: {op[2]}) -> int; def r(self, x) -> {op[2]}'
+    if k == 'mcall':
+        return f'{op[1]}().{op[2]}({o(op[3])})'
+    if k == 'defscope':
+        return (f'def scope_{op[1]}(): class Node: pass; <queries asked here>' if op[2] == 'func' else
+                f'module c14s_{op[1]}: class Node: pass; <queries asked here>')
+    if k == 'sbear':
+        c = f', conf=C{op[5]}' if len(op) > 5 and op[5] else ''
+        if op[2] == 'decor':
+            return f'in scope {op[1]}: (@beartype{"(" + c[2:] + ")" if c else ""} def g(x: {h(op[3])}))({o(op[4])})'
+        return f'in scope {op[1]}: {op[2]}({o(op[4])}, {h(op[3])}{c})'
     if k == 'clear':
         return 'clear_caches()'
     return k + '()'
@@ -604,9 +783,10 @@ def model_trace(ops: list, obs: list):
     uid: dict[str, int] = {}
     reqs, exp = [], []
     addr: dict[int, int] = {}
+    ctxs: dict[str, int] = {}
 
-    def val(fp, eqc, rep, hashable, worthy):
-        return [uid.setdefault(fp, len(uid) + 1), eqc, rep or 'none', bool(hashable), bool(worthy)]
+    def val(fp, eqc, rep, hashable, worthy, visit):
+        return [uid.setdefault(fp, len(uid) + 1), eqc, rep or 'none', bool(hashable), bool(worthy), [bool(x) for x in visit]]
 
     def a(x):
         return addr.setdefault(x, len(addr) + 1)
@@ -614,14 +794,26 @@ def model_trace(ops: list, obs: list):
         if ob is None:
             continue
         if ob['kind'] == 'bear':
-            tag = 10 * (op[4] if len(op) > 4 and op[4] else 0) + TAGS[ob['table']]
+            # asked at the top level (context 0) or from inside a caller scope (op 'sbear': contexts 1, 2, …)
+            he, conf = (op[3], op[5] if len(op) > 5 else 0) if op[0] == 'sbear' else (op[2], op[4] if len(op) > 4 else 0)
+            ctx = ctxs.setdefault(op[1], len(ctxs) + 1) if op[0] == 'sbear' else 0
+            tag = 10 * (conf or 0) + TAGS[ob['table']]
             worthy = ob['repr_stored'] != 'absent' or ob['repr_present']
-            reqs.append(['bear', tag, val(ob['fp'], ob['eqc'], ob['repr'], ob['hashable'], worthy)])
+            reqs.append(['bear', tag, val(ob['fp'], ob['eqc'], ob['repr'], ob['hashable'], worthy, hint_visit(he)), ctx])
             exp.append(['hit' if ob['hit'] else 'miss', 'cached' if ob['cached_after'] else 'uncached', ob['repr_stored']])
         elif ob['kind'] == 'thsub':
-            reqs.append(['thsub', val(ob['fa'], ob['eqa'], 'w', ob['hasha'], False), a(ob['ida']),
-                         val(ob['fb'], ob['eqb'], 'w', ob['hashb'], False), a(ob['idb'])])
+            reqs.append(['thsub', val(ob['fa'], ob['eqa'], 'w', ob['hasha'], False, hint_visit(op[1])), a(ob['ida']),
+                         val(ob['fb'], ob['eqb'], 'w', ob['hashb'], False, hint_visit(op[2])), a(ob['idb'])])
             exp.append([ob['whit_a'], ob['whit_b'], ob['idhit'], ob['stale']])
+        elif ob['kind'] == 'defself':
+            # decorating a class compiles the checks of its methods: is the expression of the methods' hint stored in
+            # _HINT_CONF_TO_CHECK_EXPR afterwards? The model answers from the visiting order of the hint's tree.
+            if ob['cleared']:
+                reqs.append(['clear'])
+                exp.append(['cleared'])
+            if ob.get('decorated'):
+                reqs.append(['tree', val('src:' + op[2], 0, 'none', True, False, hint_visit(selfsrc_expr(op[2])))])
+                exp.append(['cacheable' if ob['expr_after'] else 'uncacheable'])
         elif ob['kind'] == 'clear' or (ob['kind'] == 'defclass' and ob['cleared']):
             reqs.append(['clear'])
             exp.append(['cleared'])
@@ -685,6 +877,24 @@ CORPUS = [
     # ... unless the decorated redefinition of another class reset the set of decorated names in between
     [['deffunc', 'f1', "'Foo'", 0], ['defclass', 'Foo', True], ['defclass', 'Bar', True], ['defclass', 'Bar', True],
      ['call', 'f1', ['inst', 'Foo', -1]], ['defclass', 'Foo', True], ['call', 'f1', ['inst', 'Foo', -1]]],
+    # equal Self-hints of two decorated classes, Self before a context-free sibling; both orders of the calls
+    [['defself', 'Alpha', 'tuple[Self, int]', 0], ['defself', 'Beta', 'tuple[Self, int]', 0],
+     ['mcall', 'Alpha', 'm', ['tuple', ['inst', 'Alpha', -1], '1']], ['mcall', 'Beta', 'm', ['tuple', ['inst', 'Beta', -1], '1']],
+     ['mcall', 'Beta', 'm', ['tuple', ['inst', 'Alpha', -1], '1']], ['mcall', 'Alpha', 'r', ['tuple', ['inst', 'Beta', -1], '1']]],
+    [['defself', 'Beta', 'dict[Self, str]', 0], ['mcall', 'Beta', 'r', ['dict', [['inst', 'Beta', -1], '"a"']]],
+     ['defself', 'Alpha', 'dict[Self, str]', 0], ['mcall', 'Alpha', 'm', ['dict', [['inst', 'Alpha', -1], '"a"']]],
+     ['mcall', 'Alpha', 'm', ['dict', [['inst', 'Beta', -1], '"a"']]], ['mcall', 'Beta', 'm', ['dict', [['inst', 'Beta', -1], '"a"']]]],
+    # equal relative forward references asked from two scopes with their own Node; both orders
+    [['defscope', 'ScA', 'func'], ['defscope', 'ScB', 'func'],
+     ['sbear', 'ScA', 'is_bearable', ['tuple', REF, 'int'], ['tuple', ['inst', 'ScA', -1], '1'], 0],
+     ['sbear', 'ScB', 'is_bearable', ['tuple', REF, 'int'], ['tuple', ['inst', 'ScB', -1], '1'], 0],
+     ['sbear', 'ScB', 'is_bearable', ['tuple', REF, 'int'], ['tuple', ['inst', 'ScA', -1], '1'], 0],
+     ['sbear', 'ScA', 'die_if_unbearable', ['list', REF], ['list', ['inst', 'ScA', -1]], 0],
+     ['sbear', 'ScB', 'die_if_unbearable', ['list', REF], ['list', ['inst', 'ScB', -1]], 0]],
+    [['defscope', 'ScB', 'module'], ['defscope', 'ScA', 'module'],
+     ['sbear', 'ScB', 'decor', ['tuple', REF, 'int'], ['tuple', ['inst', 'ScB', -1], '1'], 0],
+     ['sbear', 'ScA', 'decor', ['tuple', REF, 'int'], ['tuple', ['inst', 'ScA', -1], '1'], 0],
+     ['sbear', 'ScA', 'decor', ['tuple', REF, 'int'], ['tuple', ['inst', 'ScB', -1], '1'], 0]],
     # configurations are part of the key
     [['bear', 'is_bearable', 'float', '1', 0], ['bear', 'is_bearable', 'float', '1', 1], ['bear', 'is_bearable', 'float', '1', 0],
      ['bear', 'die_if_unbearable', ['list', 'float'], '[1]', 1], ['bear', 'die_if_unbearable', ['list', 'float'], '[1]', 0]],
@@ -700,10 +910,12 @@ def explore(ck: Check, n: int, seed: int, n_table: int, n_truth: int, shrink_sec
     sample of `n_truth` further keys, is asked of a fresh interpreter of its own; every occurrence that differs
     from a fresh answer is a violation, and the history before it is the failing input."""
     ex = Explore(rule='a history (4-60 operations over is_bearable / die_if_unbearable / decorated call / TypeHint.is_bearable / '
-                      'is_subhint / TypeHint.is_subhint / TypeHint == / call of an earlier-decorated function / class '
+                      'is_subhint / TypeHint.is_subhint / TypeHint == / call of an earlier-decorated function / method calls of '
+                      'decorated classes annotated by equal Self-hints / queries asked from inside caller scopes / class '
                       '(re)definition with or without @beartype / clear_caches() / gc) counts as non-trivial only if the '
                       'instrumented history process OBSERVED in it: an id() of a dead TypeHint reused by a new one, or two '
-                      'non-== hints with the same repr reaching the repr table, or a checker/id-table cache hit')
+                      'non-== hints with the same repr reaching the repr table, or a checker/id-table cache hit, or an equal '
+                      'context-relative hint (typing.Self / relative forward reference) asked from a second class / caller scope')
     rng = random.Random(seed)
     oracle = FreshOracle()
     t0 = time.time()
@@ -788,7 +1000,7 @@ def explore(ck: Check, n: int, seed: int, n_table: int, n_truth: int, shrink_sec
         st = r['stats']
         for s_, v in st.items():
             agg[s_] = agg.get(s_, 0) + v
-        if st['id_reuse'] or st['repr_collision'] or st['checker_hit'] or st['id_hit']:
+        if st['id_reuse'] or st['repr_collision'] or st['checker_hit'] or st['id_hit'] or st.get('ctx_switch'):
             nontrivial.add(json.dumps(histories[k]))
     ex.distinct_nontrivial = len(nontrivial)
     ex.extra.update({
@@ -799,6 +1011,7 @@ def explore(ck: Check, n: int, seed: int, n_table: int, n_truth: int, shrink_sec
         'histories_with_id_reuse': sum(1 for r in results[:user_histories] if r['stats']['id_reuse']),
         'histories_with_repr_collision': sum(1 for r in results[:user_histories] if r['stats']['repr_collision']),
         'histories_with_cache_hit': sum(1 for r in results[:user_histories] if r['stats']['checker_hit'] or r['stats']['id_hit']),
+        'histories_with_context_switch_on_equal_relative_hint': sum(1 for r in results[:user_histories] if r['stats'].get('ctx_switch')),
         'forks': None})
     ex.samples = [{'history': [render(o) for o in h[:8]]} for h in histories[len(CORPUS):len(CORPUS) + 3]]
     # failures: shortest failing prefixes first; shrink, classify, report one per key
@@ -901,7 +1114,9 @@ def main(ck: Check) -> int:
                  shrink_seconds=90 if quick else 400)
     xt = ck.c14_extracted
     ex.extra['extracted_from_source'] = {'decorators': xt['decorators'], 'memoisation_sites': len(xt['sites']), 'tables': dict(xt['tables']),
-                                         'repr_hit_validated_by_eq': xt['repr_checked'], 'id_keyed_objects_pinned': xt['id_pinned']}
+                                         'repr_hit_validated_by_eq': xt['repr_checked'], 'id_keyed_objects_pinned': xt['id_pinned'],
+                                         'tree_cacheability_flag_accumulation': xt['tree_flag'],
+                                         'stores_guarded_by_tree_cacheability_flag': xt['ctx_stores_guarded']}
     ck.decide(proof, ex, deep_search=lambda: explore(ck, n=400, seed=ck.seed + 1000, n_table=0, n_truth=500, shrink_seconds=240))
     partial = ['C14_fwdref_partial (referents remembered by forward-reference proxies are current only while no name is bound twice; '
                'C14_fwdref_counterexample)',
@@ -910,7 +1125,8 @@ def main(ck: Check) -> int:
                'theorems C14_checker_pipeline_invisible / C14_id_key_pinned_invisible are the live ones']
     ck.evidence(proof, ex,
                 level_note='generic memo-invisibility theorem from KeyCongruent, for every finite history, per key discipline '
-                           '(==, repr validated by ==, id with pinned objects, forward-reference referents: partial) + table '
+                           '(==, repr validated by ==, id with pinned objects, forward-reference referents: partial; context-relative '
+                           'hints never stored under a context-free key, answers invisible across classes / caller scopes) + table '
                            'theorems over the memoisation sites extracted from the source + fresh-interpreter differential and '
                            'table lock-step on the real code; partial: ' + '; '.join(partial),
                 assumptions=['KeyCongruent for the == discipline (hints that compare == mean the same) is proved for the concrete '
